@@ -209,7 +209,22 @@ REUSE = [
     _S + '#define SA _Static_assert(sizeof(long) == 8, "m")\n#define GEN _Generic(1UL, unsigned long: 10U, default: 20)\nSA; int a = GEN; const char *s = xstr(SA GEN); SA; int b = GEN;\n',
     _S + '#define OFF __builtin_offsetof(struct S, b)\n#define VA __builtin_va_list\nstruct S { char a; long b; }; int a = OFF; VA *p; const char *s = xstr(OFF VA); int b = OFF; VA *q;\n',
     _S + '#define ASMN __asm__("real_name")\nint x ASMN; int *p = &x; const char *s = xstr(ASMN); extern int x ASMN; int *q = &x;\n',
+    # painted names leaving their macro's frame through another macro's argument, as the first token after every kind of opener
+    'enum { SZ = 4, TW = 2 };\n#define SZ SZ * 2\n#define TW (TW + 1)\n#define ID(x) x\nchar viaarg[ID(SZ)]; char direct[SZ]; char notfirst[1 * ID(SZ)]; char paren[(ID(SZ))]; int ini = ID(SZ); int lst[] = { ID(SZ), ID(TW), 0 + ID(TW) };\n'
+    'int fn(int a) { switch (a) { case ID(SZ): return ID(TW); } return ID(SZ) + sizeof(char[ID(TW)]); } struct B { int b : ID(TW); char c[ID(SZ)]; }; _Static_assert(ID(SZ) == 8, "x"); enum { Q = ID(SZ), R = ID(TW) };\n',
     _S + '#define DES { [0].a = 1, [2].b = 0X2L }\n#define XS(...) #__VA_ARGS__\nstruct S { int a; long b; } v[3] = DES, w[3] = DES; const char *s = XS(DES);\n',
+]
+
+
+# hand-written token-level units: an expansion must leave the stored definition as it was (invocations with empty arguments, then the identical
+# redefinition and further invocations), whatever the spacing inside the replacement list
+FIXED_TOK = [
+    '#define f(x) x-2\n5 f() ;\n#define f(x) x-2\nf(1) ; f( ) ; f(1) ;\n#define f(x) x-2\n',
+    '#define k(x,y) x+y*x\nk(,2) k(1,) k(,) ;\n#define k(x,y) x+y*x\nk(3,4) ;\n#define k(x,y) x+y*x\n',
+    '#define v(a, ...) a-__VA_ARGS__+a\nv(,) v(1,) v(,2) ;\n#define v(a, ...) a-__VA_ARGS__+a\nv(1,2,3) ;\n',
+    '#define s(x) #x\n#define g(x) s(<x-2>)\ng(3) ;\n#define h(x) [x-2]\nh() h(3) h() h(4) ;\n#define h(x) [x-2]\ng(5) ;\n',
+    '#define o -1\n#define w(x) x o x\nw() w(2) w() ;\n#define o -1\n#define w(x) x o x\nw(3) ;\n',
+    '#define e\n#define j(x) (x e-x)\nj() j(1) j(e) j(2) ;\n#define j(x) (x e-x)\n',
 ]
 
 
